@@ -28,6 +28,7 @@ package cache
 
 import (
 	"bytes"
+	"errors"
 	"sync"
 	"time"
 
@@ -54,6 +55,9 @@ const (
 
 // defaultHitForPassSeconds default hit for pass: 300 seconds
 const defaultHitForPassSeconds = 300
+
+// ErrInvalidStoreData the data from store is invalid
+var ErrInvalidStoreData = errors.New("data from store is invalid")
 
 type (
 	// httpCache http cache (only for same request method+host+uri)
@@ -192,7 +196,24 @@ func (hc *httpCache) initFromStore() (err error) {
 	if err != nil {
 		return
 	}
-	return hc.FromBytes(data)
+	// 先解析至临时对象，解析成功且数据有效才使用，
+	// 避免store返回异常数据时残留部分数据导致缓存状态错误
+	tmp := &httpCache{}
+	err = tmp.FromBytes(data)
+	if err != nil {
+		return
+	}
+	// 只有hit与hit for pass才会保存至store，而且均有有效期
+	if tmp.expiredAt == 0 ||
+		(tmp.status != StatusHit && tmp.status != StatusHitForPass) ||
+		(tmp.status == StatusHit && (tmp.response == nil || tmp.response.StatusCode == 0)) {
+		return ErrInvalidStoreData
+	}
+	hc.status = tmp.status
+	hc.response = tmp.response
+	hc.createdAt = tmp.createdAt
+	hc.expiredAt = tmp.expiredAt
+	return
 }
 
 // detachStore detach the store from http cache,
